@@ -518,18 +518,30 @@ func genH265ScalingList(t *rapid.T) H265ScalingListData {
 
 const maxRpsPics = 15 // NumDeltaPocs <= sps_max_dec_pic_buffering_minus1 <= MaxDpbSize − 1
 
-func genDeltas(t *rapid.T, n int, label string) []uint32 {
+// genDeltas draws n delta_poc_sX_minus1 values (each 0..2^15−1, 7.4.8) whose
+// running sum of (value + 1) stays <= limit, so that every DeltaPocS0 stays
+// >= −2^15 (limit 32768) and every DeltaPocS1 <= 2^15 − 1 (limit 32767). The
+// limit itself is reachable.
+func genDeltas(t *rapid.T, n int, limit int, label string) []uint32 {
 	out := make([]uint32, n)
-	budget := 32767 - n // sum of (delta_minus1 + 1) must stay <= 2^15 − 1
+	budget := limit - n // what may still be spent above the mandatory +1 per entry
 	for i := range out {
 		var d uint32
-		if pct(t, 85, label+"_s") {
-			d = rapid.Uint32Range(0, 3).Draw(t, label)
-		} else {
-			d = wideU32(t, 0, uint32(budget), label)
+		hi := budget
+		if hi > 32767 {
+			hi = 32767
 		}
-		if int(d) > budget {
-			d = uint32(budget)
+		switch k := rapid.IntRange(0, 19).Draw(t, label+"_k"); {
+		case k < 16 || hi <= 3:
+			m := 3
+			if hi < m {
+				m = hi
+			}
+			d = rapid.Uint32Range(0, uint32(m)).Draw(t, label)
+		case k == 16:
+			d = uint32(hi) // boundary: spend everything that is left
+		default:
+			d = wideU32(t, 0, uint32(hi), label)
 		}
 		budget -= int(d)
 		out[i] = d
@@ -567,23 +579,49 @@ func genRPSList(t *rapid.T) []H265STRPS {
 		r := &sets[i]
 		if i > 0 && pct(t, 55, "rps_inter") {
 			ref := &sets[i-1]
-			r.InterRefPicSetPredictionFlag = true
-			far := 0
+			// 7.4.8: abs_delta_rps_minus1 in 0..2^15−1 and every derived
+			// DeltaPocS0/S1 = ref delta + deltaRps (and deltaRps itself) within
+			// −2^15..2^15−1. Room on each side of the reference set:
+			maxPos, maxNeg := 0, 0 // largest positive / largest |negative| delta of the reference set
 			for _, d := range ref.DeltaPocS0 {
-				if absInt(d) > far {
-					far = absInt(d)
+				if -d > maxNeg {
+					maxNeg = -d
 				}
 			}
 			for _, d := range ref.DeltaPocS1 {
-				if absInt(d) > far {
-					far = absInt(d)
+				if d > maxPos {
+					maxPos = d
 				}
 			}
+			posRoom, negRoom := 32767-maxPos, 32768-maxNeg // admissible |deltaRps| per sign
+			if posRoom < 1 && negRoom < 1 {
+				// reference set spans the whole range: no legal deltaRps, code this set explicitly
+				goto explicit
+			}
+			r.InterRefPicSetPredictionFlag = true
 			r.DeltaRpsSign = rapid.Bool().Draw(t, "rps_sign")
-			if pct(t, 85, "rps_abs_s") {
-				r.AbsDeltaRpsMinus1 = rapid.Uint32Range(0, 4).Draw(t, "rps_abs")
-			} else {
-				r.AbsDeltaRpsMinus1 = wideU32(t, 0, uint32(32767-far-1), "rps_abs")
+			if posRoom < 1 {
+				r.DeltaRpsSign = true
+			} else if negRoom < 1 {
+				r.DeltaRpsSign = false
+			}
+			{
+				room := posRoom
+				if r.DeltaRpsSign {
+					room = negRoom
+				}
+				switch k := rapid.IntRange(0, 19).Draw(t, "rps_abs_k"); {
+				case k < 16:
+					m := 4
+					if room-1 < m {
+						m = room - 1
+					}
+					r.AbsDeltaRpsMinus1 = rapid.Uint32Range(0, uint32(m)).Draw(t, "rps_abs")
+				case k == 16:
+					r.AbsDeltaRpsMinus1 = uint32(room - 1) // boundary (up to 2^15−1 for a negative deltaRps)
+				default:
+					r.AbsDeltaRpsMinus1 = wideU32(t, 0, uint32(room-1), "rps_abs")
+				}
 			}
 			m := ref.NumDeltaPocs() + 1
 			r.UsedByCurrPicFlag = make([]bool, m)
@@ -599,6 +637,7 @@ func genRPSList(t *rapid.T) []H265STRPS {
 			}
 			continue
 		}
+	explicit:
 		var nn, np int
 		if pct(t, 12, "rps_many") {
 			nn = rapid.IntRange(0, maxRpsPics).Draw(t, "rps_nn")
@@ -608,9 +647,9 @@ func genRPSList(t *rapid.T) []H265STRPS {
 			np = rapid.IntRange(0, 3).Draw(t, "rps_np")
 		}
 		r.NumNegativePics, r.NumPositivePics = uint32(nn), uint32(np)
-		r.DeltaPocS0Minus1 = genDeltas(t, nn, "rps_d0")
+		r.DeltaPocS0Minus1 = genDeltas(t, nn, 32768, "rps_d0")
 		r.UsedByCurrPicS0Flag = bools(t, nn, "rps_u0")
-		r.DeltaPocS1Minus1 = genDeltas(t, np, "rps_d1")
+		r.DeltaPocS1Minus1 = genDeltas(t, np, 32767, "rps_d1")
 		r.UsedByCurrPicS1Flag = bools(t, np, "rps_u1")
 		r.syntax(&wcoder{}, i, nil)
 	}
